@@ -12,11 +12,24 @@ Case line (`;`-separated items, the first is the configuration):
          | age D                      D units of time pass
          | tick SRC=OUT …             one refresh tick; the table says what the provider answers for the
                                       re-queries it triggers (unlisted source = `m`)
+         | hold                       from now on every provider call blocks (the single lookup dispatcher
+                                      sits in `Instance()`; nothing is answered)
+         | release SRC=OUT …          the blocked call and everything that queued up behind it are answered
+                                      from this table
     OUT ::= vN   the map holds instance N            fN  the map holds instance N and the call errs
           | m    not in the map                      e   not in the map and the call errs
           | n    the map holds a nil pointer
 
-Every op is a *quiescent step*: the harness waits until all answers it causes have come out.  All
+While the provider is held the component keeps running: `sub` only queues (client sends block on the
+unbuffered `IpSink` until the dispatcher is back at its `select`; the owner's refresh re-queues wait in
+`toLookupIPs`), `tick` evicts and re-queues — an expired entry is queued again on every tick, the code
+does not de-duplicate — `peek` and `age` work as usual, and the tables of `sub`/`tick` are not used.
+In the model this is: `submit` / `tick` happen at their op, the `batch … handleInfo … deliver` actions for
+everything pending happen at `release` (answers are stamped with the time of the release).  A case that
+ends held gets an implicit final `release` with an empty table.  `hold` when held and `release` when not
+held change nothing.
+
+Every other op is a *quiescent step*: the harness waits until all answers it causes have come out.  All
 lookups of one source within one step get the same outcome, so the grouping into batches cannot matter.
 Times are whole units; an answer handled or a `Peek` done in a step is stamped with the time of that step.
 
@@ -48,6 +61,8 @@ inductive Op where
   | peek (s : String)
   | age (d : Nat)
   | tick (l : List (String × Out))
+  | hold
+  | release (l : List (String × Out))
 
 structure Case where
   cfg : Config
@@ -73,14 +88,21 @@ def parseOp (ts : List String) : Option Op :=
   | ["peek", s] => some (.peek s)
   | ["age", d] => d.toNat?.map Op.age
   | "tick" :: rest => (rest.mapM parsePair).map Op.tick
+  | ["hold"] => some .hold
+  | "release" :: rest => (rest.mapM parsePair).map Op.release
   | _ => Option.none
+
+/-- a case that ends with the provider held gets a final `release` with an empty table -/
+def closeHold (ops : List Op) : List Op :=
+  let held := ops.foldl (fun h op => match op with | .hold => true | .release _ => false | _ => h) false
+  if held then ops ++ [.release []] else ops
 
 def parseCase (line : String) : Option Case := do
   match splitBy ";" (tokens line) with
   | ["cfg", ttl, neg, idle, mx] :: ops =>
     let cfg : Config := { ttl := (← ttl.toNat?), negTtl := (← neg.toNat?), idle := (← idle.toNat?), maxBatch := (← mx.toNat?) }
     let ops ← (ops.filter (fun o => !o.isEmpty)).mapM parseOp
-    return { cfg := cfg, ops := ops }
+    return { cfg := cfg, ops := closeHold ops }
   | _ => Option.none
 
 def table (l : List (String × Out)) (s : String) : Out :=
@@ -127,28 +149,35 @@ def runModel (line : String) : String :=
   match parseCase line with
   | Option.none => "BAD_CASE"
   | some c =>
-    let r : Option (St × Int × List String) := c.ops.foldlM (init := ((init : St), (0 : Int), ([] : List String)))
-      (fun (acc : St × Int × List String) op => do
-        let (st, now, outs) := acc
+    let r : Option (St × Int × List String × Bool) :=
+      c.ops.foldlM (init := ((init : St), (0 : Int), ([] : List String), false))
+      (fun (acc : St × Int × List String × Bool) op => do
+        let (st, now, outs, held) := acc
         match op with
         | .sub l =>
           let st1 ← l.foldlM (fun s e => step c.cfg s (.submit e.1)) st
+          if held then pure (st1, now, outs ++ [s!"q[] a[] {gauges st1}"], held) else
           let (st2, res) ← quiesce c.cfg now (table l) st1
-          pure (st2, now, outs ++ [s!"{res} {gauges st2}"])
+          pure (st2, now, outs ++ [s!"{res} {gauges st2}"], held)
         | .peek s =>
           let res := match peekVal st s with
             | Option.none => "miss"
             | some v => s!"hit:{showVal v}"
           let st1 ← step c.cfg st (.peek s now)
-          pure (st1, now, outs ++ [s!"{res} {gauges st1}"])
-        | .age d => pure (st, now + d, outs ++ [s!"ok {gauges st}"])
+          pure (st1, now, outs ++ [s!"{res} {gauges st1}"], held)
+        | .age d => pure (st, now + d, outs ++ [s!"ok {gauges st}"], held)
         | .tick l =>
           let st1 ← step c.cfg st (.tick now)
+          if held then pure (st1, now, outs ++ [s!"q[] a[] {gauges st1}"], held) else
           let (st2, res) ← quiesce c.cfg now (table l) st1
-          pure (st2, now, outs ++ [s!"{res} {gauges st2}"]))
+          pure (st2, now, outs ++ [s!"{res} {gauges st2}"], held)
+        | .hold => pure (st, now, outs ++ [s!"ok {gauges st}"], true)
+        | .release l =>
+          let (st2, res) ← quiesce c.cfg now (table l) st
+          pure (st2, now, outs ++ [s!"{res} {gauges st2}"], false))
     match r with
     | Option.none => "MODEL_DISABLED"
-    | some (st, _, outs) =>
+    | some (st, _, outs, _) =>
       " ; ".intercalate (outs ++ [s!"end q={st.queried.length} a={st.delivered.length} late=0 b=ok"])
 
 /-! ### the executable specification, evaluated on the implementation's output
@@ -220,23 +249,18 @@ def checkGauges (es : List Ent) (o : Obs) : Option String :=
   else if gp != cp || gn != cn then some s!"gauge positive/negative gauges {gp}/{gn} but the cache holds {cp}/{cn} such entries"
   else Option.none
 
-def hasDup : List String → Bool
-  | [] => false
-  | x :: xs => xs.contains x || hasDup xs
-
-/-- `must ⊆ asked ⊆ may` (as multisets when `must = may`, which is the case for submissions) -/
+/-- `must ≤ asked ≤ may` as multisets; answers for exactly the asked sources, with the table's values -/
 def checkLookups (what : String) (tbl : String → Out) (must may : List String)
     (qs : List String) (as : List (String × Option Nat)) : Option String :=
   let gq := sortStrings qs
   let bad : Option String :=
-    if sortStrings must == sortStrings may then
-      if gq != sortStrings must then some s!"{what} asked the provider for [{unwords gq}], expected [{unwords (sortStrings must)}]"
-      else Option.none
-    else if hasDup gq then some s!"{what} asked the provider for [{unwords gq}]: a source twice"
-    else match must.find? (fun m => !gq.contains m), gq.find? (fun x => !may.contains x) with
-      | some m, _ => some s!"{what} did not ask again for {m}, which is past its TTL (asked [{unwords gq}])"
-      | _, some x => some s!"{what} asked for {x}, which is not due (asked [{unwords gq}], due [{unwords (sortStrings may)}])"
-      | _, _ => Option.none
+    match (must ++ may ++ gq).find? (fun s => gq.count s < must.count s || gq.count s > may.count s) with
+    | Option.none => Option.none
+    | some s =>
+      if gq.count s < must.count s then
+        some s!"{what} the provider was asked for {s} {gq.count s} time(s), at least {must.count s} needed (asked [{unwords gq}])"
+      else
+        some s!"{what} the provider was asked for {s} {gq.count s} time(s), at most {may.count s} due (asked [{unwords gq}])"
   if bad.isSome then bad
   else if sortStrings (as.map (·.1)) != gq then
     some s!"answers sources asked [{unwords gq}] but answers came for [{unwords (sortStrings (as.map (·.1)))}]"
@@ -244,26 +268,49 @@ def checkLookups (what : String) (tbl : String → Out) (must may : List String)
     | some a => some s!"value answer for {a.1} is {showVal a.2}, the provider said {showVal (tbl a.1).val}"
     | Option.none => Option.none
 
-def specGo (cfg : Config) : List Op → List (List String) → Int → List Ent → Nat → String
-  | [], items, _, _, k =>
-    match items with
-    | [["end", q, a, late, b]] =>
-      if (q.drop 2).toString != (a.drop 2).toString then s!"FAIL answers totals {q} {a}"
-      else if late != "late=0" then s!"FAIL requery answers nobody was waiting for arrived after the last step ({late})"
-      else if b != "b=ok" then s!"FAIL batch a provider call exceeded MaxInstancesBatch or was empty ({b})"
-      else "ok"
-    | _ => s!"FAIL shape op {k}: expected the end item"
-  | _ :: _, [], _, _, k => s!"FAIL shape output ends before op {k}"
-  | op :: ops, item :: items, now, es, k =>
+def checkEnd (items : List (List String)) (k : Nat) : String :=
+  match items with
+  | [["end", q, a, late, b]] =>
+    if (q.drop 2).toString != (a.drop 2).toString then s!"FAIL answers totals {q} {a}"
+    else if late != "late=0" then s!"FAIL requery answers nobody was waiting for arrived after the last step ({late})"
+    else if b != "b=ok" then s!"FAIL batch a provider call exceeded MaxInstancesBatch or was empty ({b})"
+    else "ok"
+  | _ => s!"FAIL shape op {k}: expected the end item"
+
+/-- bookkeeping of the specification: time, entries, whether the provider is held, and the lookups that
+are outstanding while it is held — `oMust` those the property demands (every submission; an entry past
+its TTL at a tick *unless a lookup of that source is already outstanding*: the property does not demand
+a second query for it), `oMay` those it permits (the code queues an expired entry at every tick). -/
+structure SpecSt where
+  now : Int := 0
+  es : List Ent := []
+  held : Bool := false
+  oMust : List String := []
+  oMay : List String := []
+
+def specGo (cfg : Config) : List Op → List (List String) → SpecSt → Nat → String
+  | [], items, _, k => checkEnd items k
+  | _ :: _, [], _, k => s!"FAIL shape output ends before op {k}"
+  | op :: ops, item :: items, σ, k =>
+    -- the harness stops a history after two steps with missing answers
+    if item == ["cut"] then checkEnd items k else
     match parseObs item with
     | Option.none => s!"FAIL shape op {k}: {unwords item}"
     | some o =>
-      let fin (es' : List Ent) (now' : Int) : String :=
-        match checkGauges es' o with
+      let now := σ.now
+      let es := σ.es
+      let fin (σ' : SpecSt) : String :=
+        match checkGauges σ'.es o with
         | some m => s!"FAIL {m} (op {k})"
-        | Option.none => specGo cfg ops items now' es' (k + 1)
+        | Option.none => specGo cfg ops items σ' (k + 1)
+      let nothing (what : String) (cont : Unit → String) : String :=
+        match parseQA o.res with
+        | some ([], []) => cont ()
+        | some (qs, as) => s!"FAIL answers {what} while every provider call is held: asked [{unwords qs}], {as.length} answers (op {k})"
+        | Option.none => s!"FAIL shape op {k}: {unwords o.res}"
       match op with
-      | .age d => if o.res != ["ok"] then s!"FAIL shape op {k}" else fin es (now + d)
+      | .age d => if o.res != ["ok"] then s!"FAIL shape op {k}" else fin { σ with now := now + d }
+      | .hold => if o.res != ["ok"] then s!"FAIL shape op {k}" else fin { σ with held := true }
       | .peek s =>
         let want := match findEnt es s with
           | Option.none => "miss"
@@ -274,24 +321,37 @@ def specGo (cfg : Config) : List Op → List (List String) → Int → List Ent 
             | Option.none => "evict"
             | some e => if got == "miss" then "evict" else if e.inst.isSome then "sticky" else "peek"
           s!"FAIL {cls} Peek({s}) returned {got}, the history implies {want} (op {k})"
-        else fin (es.map (fun e => if e.src == s then { e with la := now } else e)) now
+        else fin { σ with es := es.map (fun e => if e.src == s then { e with la := now } else e) }
       | .sub l =>
+        if σ.held then
+          nothing "sub" (fun _ => fin { σ with oMust := σ.oMust ++ l.map (·.1), oMay := σ.oMay ++ l.map (·.1) })
+        else
         match parseQA o.res with
         | Option.none => s!"FAIL shape op {k}: {unwords o.res}"
         | some (qs, as) =>
           match checkLookups "unqueried" (table l) (l.map (·.1)) (l.map (·.1)) qs as with
           | some m => s!"FAIL {m} (op {k})"
-          | Option.none => fin (as.foldl (applyAnswer cfg now) es) now
+          | Option.none => fin { σ with es := as.foldl (applyAnswer cfg now) es }
       | .tick l =>
+        let kept := es.filter (fun e => !(decide (now - e.la > cfg.idle)))
+        let must := (kept.filter (fun e => decide (now > e.expHi) && !σ.oMay.contains e.src)).map (·.src)
+        let may := (kept.filter (fun e => decide (now > e.expLo))).map (·.src)
+        if σ.held then
+          nothing "tick" (fun _ => fin { σ with es := kept, oMust := σ.oMust ++ must, oMay := σ.oMay ++ may })
+        else
         match parseQA o.res with
         | Option.none => s!"FAIL shape op {k}: {unwords o.res}"
         | some (qs, as) =>
-          let kept := es.filter (fun e => !(decide (now - e.la > cfg.idle)))
-          let must := (kept.filter (fun e => decide (now > e.expHi))).map (·.src)
-          let may := (kept.filter (fun e => decide (now > e.expLo))).map (·.src)
           match checkLookups "requery" (table l) must may qs as with
           | some m => s!"FAIL {m} (op {k})"
-          | Option.none => fin (as.foldl (applyAnswer cfg now) kept) now
+          | Option.none => fin { σ with es := as.foldl (applyAnswer cfg now) kept }
+      | .release l =>
+        match parseQA o.res with
+        | Option.none => s!"FAIL shape op {k}: {unwords o.res}"
+        | some (qs, as) =>
+          match checkLookups "requery" (table l) σ.oMust σ.oMay qs as with
+          | some m => s!"FAIL {m} (op {k})"
+          | Option.none => fin { σ with es := as.foldl (applyAnswer cfg now) es, held := false, oMust := [], oMay := [] }
 
 def spec (caseLine implLine : String) : String :=
   match parseCase caseLine with
@@ -300,8 +360,7 @@ def spec (caseLine implLine : String) : String :=
     if implLine.startsWith "HANG" then s!"FAIL hang {implLine}"
     else if implLine.startsWith "PANIC" then s!"FAIL panic {implLine}"
     else if implLine.startsWith "CRASH" then s!"FAIL crash {implLine}"
-    else if implLine.startsWith "SHORT" then s!"FAIL answers {implLine}"
-    else specGo c.cfg c.ops (splitBy ";" (tokens implLine)) 0 [] 0
+    else specGo c.cfg c.ops (splitBy ";" (tokens implLine)) {} 0
 
 def main (args : List String) : IO UInt32 := do
   match args with
